@@ -250,6 +250,21 @@ Proof.
   split; lra.
 Qed.
 
+Lemma ler_lb : forall lo a b d, 0 <= d -> d <= 1 -> lo <= a -> lo <= b -> lo <= ler a b d.
+Proof.
+  intros lo a b d Hd0 Hd1 Ha Hb. unfold ler.
+  assert (H1 : 0 <= (a - lo) * (1 - d)) by (apply Qmult_le_0_compat; lra).
+  assert (H2 : 0 <= (b - lo) * d) by (apply Qmult_le_0_compat; lra).
+  lra.
+Qed.
+Lemma ler_ub : forall hi a b d, 0 <= d -> d <= 1 -> a <= hi -> b <= hi -> ler a b d <= hi.
+Proof.
+  intros hi a b d Hd0 Hd1 Ha Hb. unfold ler.
+  assert (H3 : 0 <= (hi - a) * (1 - d)) by (apply Qmult_le_0_compat; lra).
+  assert (H4 : 0 <= (hi - b) * d) by (apply Qmult_le_0_compat; lra).
+  lra.
+Qed.
+
 (* Lipschitz in the fraction: the blend moves by at most |b - a| per unit of d *)
 Lemma ler_diff : forall a b d d', ler a b d - ler a b d' == (b - a) * (d - d').
 Proof. intros. unfold ler. ring. Qed.
@@ -305,7 +320,7 @@ Proof.
     assert (Hle : nq g (S k) <= nq g i) by (apply inc_le; [assumption|lia|lia]).
     assert (Hx : x == nq g (S k)) by (apply Qle_antisym; [assumption|lra]).
     rewrite (ler_1 _ _ (fr g k x)) by (apply fr_hi; assumption).
-    apply (axis_on_grid g x i (S k) v); try assumption. lia.
+    apply (axis_on_grid g x i (S k) v); try assumption.
 Qed.
 
 (* an affine function of the coordinate is reproduced exactly *)
@@ -343,7 +358,7 @@ Proof.
   destruct (position (N:=QN) r x) as [k'|] eqn:E'; [discriminate|].
   apply eqb_false in E. destruct k as [|k].
   - cbn [nth]. intros He. apply E. symmetry. exact He.
-  - cbn [nth]. apply IH; [reflexivity|cbn in Hk; lia].
+  - cbn [nth]. apply IH; [exact E'|cbn in Hk; lia].
 Qed.
 
 End InterpP.
